@@ -56,6 +56,8 @@ def parse_layer(tok):
             l["sticky"] = True
         elif o == "fr":
             l["fb"] = "r"
+        elif o == "frp":
+            l["fb"] = "rp"
         elif o == "t":
             l["retry"] = True
         elif o == "v":
@@ -107,7 +109,7 @@ def documented_status(l):
     if k in ("connlimit", "ratelimit"):
         return 429
     if k == "cbreaker":
-        return 503 if l["fb"] == "" else (302 if l["fb"] == "r" else int(l["fb"]))
+        return 503 if l["fb"] == "" else (302 if l["fb"] in ("r", "rp") else int(l["fb"]))
     if k in ("roundrobin", "rebalancer"):
         return 500
     if k == "buffer":
@@ -120,7 +122,7 @@ REFUSAL_LEN = {"connlimit": 26, "ratelimit": 29, "roundrobin": 21, "rebalancer":
 
 def refusal_len(lay):
     if lay["kind"] == "cbreaker":
-        return 19 if lay["fb"] == "" else (5 if lay["fb"] == "r" else 7)
+        return 19 if lay["fb"] == "" else (5 if lay["fb"] in ("r", "rp") else 7)
     return REFUSAL_LEN[lay["kind"]]
 
 
@@ -242,8 +244,13 @@ def monitor(ops, outs):
                 bad.append("decisive: layer %d (%s) intervenes, documented status %s, client got %d" % (o_idx, stack[o_idx]["kind"], want, status))
             if stack[o_idx]["kind"] == "ratelimit" and not any(k == "X-Retry-In" for k, _ in hdrs):
                 bad.append("decisive: rate-limit refusal without X-Retry-In")
-            if stack[o_idx]["kind"] == "cbreaker" and stack[o_idx]["fb"] == "r" and not any(k == "Location" for k, _ in hdrs):
-                bad.append("decisive: redirect fallback without Location")
+            if stack[o_idx]["kind"] == "cbreaker" and stack[o_idx]["fb"] in ("r", "rp"):
+                # PreservePath appends the path of the URL the breaker sees: the client's /p, or the (empty) path of the
+                # server URL once a balancer in front of it has re-targeted the request
+                behind_lb = any(l["kind"] in ("roundrobin", "rebalancer") for l in stack[:o_idx])
+                loc = "http://fallback.verif/x" + ("/p" if stack[o_idx]["fb"] == "rp" and not behind_lb else "")
+                if [v for k, v in hdrs if k == "Location"] != [loc]:
+                    bad.append("decisive: redirect fallback must answer Location: %s, client got %s" % (loc, [v for k, v in hdrs if k == "Location"]))
             continue
         if exp["kind"] == "overflow":
             # a response over some buffer's MaxResponseBodyBytes: not a non-intervening configuration (C15); only the run count is judged
@@ -392,7 +399,7 @@ def layer_token(rng, kind, force_q=False):
         if r < 0.3:
             t += "/f" + rng.choice(["418", "429", "200", "500", "503", "502", "504"])
         elif r < 0.45:
-            t += "/fr"
+            t += "/fr" if r < 0.38 else "/frp"
     if kind == "ratelimit" and rng.random() < 0.6:
         t += "/p" + rng.choice(["1", "10", "50", "99", "100", "101", "1500", "2500", "60000", "90000", "3600000"])
     if kind == "buffer":
